@@ -111,35 +111,36 @@ def isoformat(dt: datetime.date | datetime.time | datetime.timedelta) -> str:
     """
     if isinstance(dt, (datetime.date, datetime.time)):
         return dt.isoformat()
-    dur: pendulum.Duration = (
-        dt
-        if isinstance(dt, pendulum.Duration)
-        else pendulum.duration(
-            days=dt.days,
-            seconds=dt.seconds,
-            microseconds=dt.microseconds,
-        )
-    )
+    # ISO 8601 durations are unsigned, negative durations carry a leading sign.
+    sign = ""
+    if dt < datetime.timedelta(0):
+        sign, dt = "-", -dt
+    if isinstance(dt, pendulum.Duration):
+        # Weeks may not be combined with other designators, fold them into the days.
+        years, months, days = dt.years, dt.months, dt.weeks * 7 + dt.remaining_days
+        hours, minutes = dt.hours, dt.minutes
+        seconds, microseconds = dt.remaining_seconds, dt.microseconds
+    else:
+        years, months, days = 0, 0, dt.days
+        hours, remainder = divmod(dt.seconds, 3600)
+        minutes, seconds = divmod(remainder, 60)
+        microseconds = dt.microseconds
     datepart = "".join(
-        f"{p}{s}"
-        for p, s in ((dur.years, "Y"), (dur.months, "M"), (dur.remaining_days, "D"))
-        if p
+        f"{p}{s}" for p, s in ((years, "Y"), (months, "M"), (days, "D")) if p
     )
     timepart = "".join(
         f"{p}{s}"
         for p, s in (
-            (dur.hours, "H"),
-            (dur.minutes, "M"),
-            (
-                f"{dur.remaining_seconds}.{dur.microseconds:06}"
-                if dur.microseconds
-                else dur.remaining_seconds,
-                "S",
-            ),
+            (hours, "H"),
+            (minutes, "M"),
+            (f"{seconds}.{microseconds:06}" if microseconds else seconds, "S"),
         )
         if p
     )
-    period = f"P{datepart}T{timepart}"
+    # The time designator is only valid when followed by a time component.
+    if datepart and not timepart:
+        return f"{sign}P{datepart}"
+    period = f"{sign}P{datepart}T{timepart}"
     return period
 
 
@@ -221,7 +222,14 @@ def dateparse(val: str, t: type[DateTimeT]) -> DateTimeT:
     """
     try:
         # When `exact=False`, the only two possibilities are DateTime and Duration.
-        parsed: pendulum.DateTime | pendulum.Duration = pendulum.parse(val)  # type: ignore[assignment]
+        # A signed duration (`-P1D`) is parsed unsigned, then negated.
+        signed = val[:2] in ("-P", "+P")
+        parsed: pendulum.DateTime | pendulum.Duration = pendulum.parse(  # type: ignore[assignment]
+            val[1:] if signed else val
+        )
+        if signed and val[0] == "-" and isinstance(parsed, pendulum.Duration):
+            # Negate the exact underlying delta, `Duration.__neg__` is a lossy float op.
+            parsed = datetime.timedelta.__neg__(parsed)  # type: ignore[assignment]
         normalized = _nomalize_dt(val=val, parsed=parsed, td=t)
         return normalized
     except ValueError:
